@@ -8,3 +8,5 @@ package gorums
 func vEmit(ev string, node uint32, msg uint64, kv ...interface{}) {}
 
 func vGate(ev string, node uint32, msg uint64, kv ...interface{}) {}
+
+func vRouteMiss(c *channel, msgID uint64) {}
